@@ -151,7 +151,14 @@ impl Check for C06Check {
             }
             let mut expect: Vec<T> = r1.answers.iter().map(|a| a.term.clone()).collect();
             expect.sort();
-            let bfs = run_program(p, &case.cfg, usize::MAX, false);
+            // step budget proportional to the size of the tree (see framework::finite_budget)
+            let mut cfg = case.cfg.clone();
+            cfg.quanta_budget = finite_budget(r1.steps, r1.answers.len());
+            cfg.work_cap = cfg.quanta_budget.saturating_mul(64);
+            let bfs = run_program(p, &cfg, usize::MAX, false);
+            if bfs.end == End::Exhausted {
+                facts.metrics.insert("quanta_needed_over_budget", bfs.stats.quanta as f64 / cfg.quanta_budget as f64);
+            }
             facts.trace_hash = bfs.stats.trace_hash;
             let perturbed = bfs.stats.reorders_fired > 0 || bfs.stats.yields_fired > 0;
             let has_disj = p.any(|g| matches!(g, G::Conde(_) | G::Disj(..) | G::Leaf(_) | G::Call(..) | G::CallDef(..)));
@@ -199,7 +206,7 @@ impl Check for C06Check {
             }
             // same program under dfs { }
             let dfs_p = wrap_dfs(p);
-            let dfs = run_program(&dfs_p, &case.cfg, usize::MAX, false);
+            let dfs = run_program(&dfs_p, &cfg, usize::MAX, false);
             facts.stats.push(dfs.stats.clone());
             match &dfs.end {
                 End::Exhausted => {}
